@@ -444,5 +444,8 @@ def run(ctx):
     ctx.extra["data_outcomes"] = outcomes
     ctx.extra["data_skipped_resource_heavy"] = skipped
     ctx.extra["data_violation_classes"] = dict((str(dict(k)), v) for k, v in classes.items())
-    ctx.obligation("tie:data_loaders_total", not classes and not faults, "%d violation classes, %d faults" % (len(classes), len(faults)))
+    known = vplib.load_known()
+    unknown = [k for k in classes if vplib.match_known(ctx.prop, dict(k), known) is None]
+    ctx.obligation("tie:data_loaders_total", not unknown and not faults,
+                   "%d violation classes (%d known findings), %d faults" % (len(classes), len(classes) - len(unknown), len(faults)))
     return inputs
